@@ -98,7 +98,8 @@ class Runner:
             q.put(h)
         nworkers = max(1, min(self.jobs, len(hs)))
 
-        budget = [float(os.environ.get("VERIF_MEM_GB", "48"))]
+        budget_total = mem_budget_gb()
+        budget = [budget_total]
         cv = threading.Condition()
 
         def work(w):
@@ -107,7 +108,7 @@ class Runner:
                     h = q.get_nowait()
                 except queue.Empty:
                     return
-                need = min(float(h.mem_gb), float(os.environ.get("VERIF_MEM_GB", "48")))
+                need = min(float(h.mem_gb), budget_total)
                 with cv:
                     while budget[0] < need:
                         cv.wait()
@@ -252,6 +253,19 @@ class Runner:
         if all(x == "could not run" for x in outcome.values()):
             return rdir, None
         return rdir, False
+
+
+def mem_budget_gb():
+    """memory the scheduler may hand out: VERIF_MEM_GB if set, else min(48, what the machine has available now - 6)"""
+    if os.environ.get("VERIF_MEM_GB"):
+        return float(os.environ["VERIF_MEM_GB"])
+    try:
+        for line in open("/proc/meminfo"):
+            if line.startswith("MemAvailable:"):
+                return max(8.0, min(48.0, int(line.split()[1]) / 1048576.0 - 6.0))
+    except OSError:
+        pass
+    return 48.0
 
 
 def select(prop, tier, only):
